@@ -1,7 +1,7 @@
 SPECIFICATION Spec
 CONSTANTS
-  A1 = {}
-  N1 = 0
+  A1 = {"1", "0", ".", "e", "-"}
+  N1 = 6
   A2 = {}
   N2 = 0
   A3 = {}
@@ -13,10 +13,10 @@ CONSTANTS
   A6 = {}
   N6 = 0
   MAX = 32767
-  MaxDigits <- Int64MaxDigits
+  MaxDigits <- SmallMaxDigits
   Extra <- NoExtra
-  ExtraSeq <- FileSeq
-  BufCap = 0
+  ExtraSeq <- NoExtraSeq
+  BufCap = 3
   LosesIntegerDigits = FALSE
-INVARIANTS EmitInv
+INVARIANTS GrammarTotal DenotAgree ScannersAgree
 CHECK_DEADLOCK FALSE
